@@ -77,3 +77,7 @@ def run(ctx):
 
 # sensitivity pack (thorough tier): each seeded edit must be reported by the named rule instance
 MUTANTS = [{'name': 'edict-output-guard-dropped', 'file': 'crates/ordinals/src/edict.rs', 'old': '    if output > u32::try_from(tx.output.len()).unwrap() {\n      return None;\n    }\n', 'new': '', 'expect': ('R16.2', 'Edict::from_integers', 'Some only under')}]
+
+
+# behaviour-preserving edits (thorough tier): the rules must stay silent on every one of them
+NEUTRAL = [{'name': 'from_value: flipped comparison and a let binding', 'file': 'src/inscriptions/inscription_id.rs', 'old': '    if value.len() < Txid::LEN {\n      return None;\n    }\n\n    if value.len() > Txid::LEN + 4 {\n      return None;\n    }', 'new': '    let n = value.len();\n    if Txid::LEN > n {\n      return None;\n    }\n\n    if n > Txid::LEN + 4 {\n      return None;\n    }'}]
